@@ -1424,23 +1424,23 @@ SUBCHECKS = [
                   "= 24 cells (6 cutoff modes x renorm in {0, True, 1, 2}); inputs in each driver's documented domain, cutoffs placed "
                   "inside a gap of the reference spectrum; cells refused with ValueError/NotImplementedError are counted as rejected cells; "
                   "nt cell: >= 1 value removed or single precision or rank-deficient input"),
-    SubCheck("untruncated", run_untruncated, s_untruncated, examples=(700, 8000), shards=(2, 6),
+    SubCheck("untruncated", run_untruncated, s_untruncated, examples=(600, 8000), shards=(2, 6),
              rule="direct / Gram-based methods x the forms each documents, shapes 1..8 x 1..8, kinds incl. exact rank k, zeros, degenerate, "
                   "Hermitian indefinite / psd / rank-deficient psd, cutoff 0.0 or None and no cap; nt: rank-deficient or dimension 1 or single"),
-    SubCheck("truncated", run_truncated, s_truncated, examples=(500, 8000), shards=(3, 8),
+    SubCheck("truncated", run_truncated, s_truncated, examples=(400, 8000), shards=(3, 8),
              rule="svd / svd:eig / eigh / auto x all forms x 6 modes x cutoff (inside a gap +- jitter, or raw 10**u) x cap x renorm x info: "
                   "kept count == documented rule (ambiguity band), best rank-k, reported error == distance, renormalisation; nt: removed >= 1 etc."),
-    SubCheck("iterative", run_iterative, s_iterative, examples=(500, 6000), shards=(1, 4),
+    SubCheck("iterative", run_iterative, s_iterative, examples=(400, 6000), shards=(1, 4),
              rule="svds / isvd / rsvd / eigsh / svd:rand on exactly rank-r inputs (3..12) with cap >= r and/or a tiny cutoff, sparse and dense "
                   "branches; all nt (rank-deficient by construction)"),
-    SubCheck("tensor_split", run_tensor_split, s_tensor_split, examples=(500, 6000), shards=(2, 6),
+    SubCheck("tensor_split", run_tensor_split, s_tensor_split, examples=(400, 6000), shards=(2, 6),
              rule="Tensor.split / tensor_split on rank 2-5 tensors, random bipartition, stored axis order, left order, right_inds, get in "
                   "{None, tensors, arrays, values}, bond_ind, matrix_svals, tags: labels, bond, tags, left_inds flags (iso_defect), value of the "
                   "returned network (einsum) and the array-level oracle on the unfused factors; nt: rank > 2 or removed >= 1 or single ..."),
-    SubCheck("batch", run_batch, s_batch, examples=(500, 6000), shards=(2, 6),
+    SubCheck("batch", run_batch, s_batch, examples=(400, 6000), shards=(2, 6),
              rule="array_split on a batch (1-3 members, 1-2 leading axes: generic implementation) vs the same call on each 2-D member "
                   "(accelerated implementation): same acceptance, every member satisfies the full oracle; all nt"),
-    SubCheck("history", run_history, s_history, examples=(400, 5000), shards=(1, 4),
+    SubCheck("history", run_history, s_history, examples=(300, 5000), shards=(1, 4),
              rule="array_split(A) then array_split(B) vs array_split(B) after core.reset_quimb_state(), A an equal-but-differently-typed twin of B "
                   "(True/1, False/0, 0/0.0), a random option set, or B itself; results must be identical; nt: A is not B"),
 ]
